@@ -27,6 +27,14 @@ U16_EDGE = [0, 1, 2, 3, 4, 5, 6, 65535, 65534, 65533, 32767, 32768, 21845, 43690
 I32_EDGE = [0, 1, 2, 7, 8, 0x7FFFFFFF, 0x80000000, 0xFFFFFFFF, 0x80000001, 0x00800000, 0x0000FF80]
 POW2 = [1, 2, 4, 8, -1, -2, -4, -8]
 BIG_SIZES = [30, 31, 32, 33, 48, 64]
+# repaired defects: these units must be built, run on every listed size, and agree with the inlined body
+REGRESSIONS = [
+    dict(instr="avx2_mask_storeu_ps", fixed_by="fix: avx2_mask_storeu_ps must store the first N lanes",
+         units={"t_avx2_mask_storeu_ps_A": "stores exactly the first N lanes, N = 1..8",
+                "t_avx2_mask_storeu_ps_B": "callable twice in one scope (row-1 window at offset 3), N = 1..8"},
+         sizes=list(range(1, 9))),
+]
+UNIT_STATS = {}
 
 
 def gen_value(rng, ety, mode="plain"):
@@ -228,6 +236,11 @@ def build_groups(ck, good, scratch, flags, byname):
                     u["c_t"] = prep["c"]
                     built[u["name"]] = (prep["exe"], prep["tags"][u["name"]])
                 continue
+            if "[timeout after" in log:        # an overloaded host is not a property of the instruction
+                for u in us:
+                    failed[u["name"]] = "harness: gcc timed out"
+                    ck.broken_obligation("harness:gcc-timeout:" + u["name"], log[-200:])
+                continue
             if len(us) == 1:
                 u = us[0]
                 u["c_t"] = prep["c"]
@@ -299,7 +312,7 @@ def run_instrs(ck, flags, instrs, driver, scratch, variants):
     jobs, meta = [], []
     for u in good:
         I = byname[u["instr"]]
-        if u["name"] in failed and failed[u["name"]].startswith("exo: "):
+        if u["name"] in failed and failed[u["name"]].startswith(("exo: ", "harness: ")):
             continue
         if u["name"] in failed:
             log = failed[u["name"]]
@@ -357,6 +370,10 @@ def run_instrs(ck, flags, instrs, driver, scratch, variants):
                     sample={"instr": u["instr"], "variant": u["variant"], "sizes": c["sizes"], "inputs": js(c["data"]),
                             "with_instruction": js(t), "bodies_inlined": js(r)},
                     tag=u["instr"])
+            us_ = UNIT_STATS.setdefault(u["name"], {"cases": 0, "differ": 0, "sizes": set()})
+            us_["cases"] += 1
+            us_["sizes"].update(c["sizes"].values())
+            us_["differ"] += int(t != r)
             if t == r:
                 ck.corr_agree("instr-search")
             else:
@@ -486,6 +503,22 @@ def run(ck: common.Check):
         ck.log("instruction search + correspondence: %.0fs" % (_t.time() - t0))
         for st in ("instr-search", "instr-frag", "instr-body"):
             ck.log(st, {k: v for k, v in ck.stream(st).items() if k != "distribution" and k != "first_divergences"})
+
+    # regression cases of repaired defects
+    reg_report = []
+    if ext_ok and driver.exists():
+        for rg in REGRESSIONS:
+            for uname, meaning in rg["units"].items():
+                stt = UNIT_STATS.get(uname)
+                ok = bool(stt) and stt["differ"] == 0 and set(rg["sizes"]) <= stt["sizes"]
+                reg_report.append({"unit": uname, "checks": meaning, "fixed_by": rg["fixed_by"], "passed": ok,
+                                   "cases": stt["cases"] if stt else 0, "differ": stt["differ"] if stt else None})
+                ck.obligation("regression:%s" % uname, ok,
+                              "" if ok else "repaired defect: unit not built/run on every size, or results differ (%s)" % (
+                                  {k: (sorted(v) if isinstance(v, set) else v) for k, v in stt.items()} if stt else "not run"))
+                if not ok and stt and stt["differ"]:
+                    pass    # the concrete input was already reported by the search as x86:<instr>:result-differs
+    ck.cov["regressions"] = reg_report
 
     ck.cov["rule"] = (
         "obligations: one Coq theorem per @instr of exo/platforms/x86.py about the generated (fragment, body) terms "
